@@ -43,7 +43,8 @@ ASSUMPTIONS = [
     "q = 0 is checked for finiteness only (the kernel's q = 0 guard is outside the statement)",
     "DLL and pure-Python drivers only (no OpenCL/CUDA in the image)",
 ]
-QUICK_MODELS = ["sphere", "core_shell_sphere", "cylinder", "core_multi_shell", "parallelepiped", "lamellar_hg"]
+QUICK_MODELS = ["sphere", "core_shell_sphere", "cylinder", "core_multi_shell", "parallelepiped", "lamellar_hg",
+                "multilayer_vesicle", "fractal", "core_shell_ellipsoid"]
 PY_MODELS = ["adsorbed_layer", "teubner_strey"]
 # one representative per structural class of parameter table (thorough tier explores these one level deeper)
 D4_MODELS = ["sphere", "core_shell_sphere", "cylinder", "core_multi_shell", "parallelepiped", "lamellar_hg", "vesicle",
